@@ -123,6 +123,10 @@ type Node struct {
 	API    *HTTPOp
 	// CLI, when set, is the dc4bc_cli tool chain in front of API (see CLIOp).
 	CLI *CLIOp
+	// Proc, when set, replaces Cold: this participant's machine is the cmd/airgapped binary running as its
+	// own process (see ProcMachine); ColdPub is the DKG public key it printed.
+	Proc    *ProcMachine
+	ColdPub []byte
 }
 
 // NodeOpts configures wiring of one hot node.
